@@ -1,23 +1,289 @@
-//! C07: not built yet
+//! C07: client packet ids unique, inflight window bounded, flow control resumes, a collision
+//! is only pending while its id is genuinely held.
+//!
+//! State-machine half (substrate S2). "Unacknowledged" = from first write until PUBACK, or
+//! PUBCOMP for QoS 2 (DESIGN.md section 4, binding reading). The request gate of
+//! `EventLoop::select` (`inflight < limit && collision.is_none()`, bypassed by `pending`) is
+//! applied by the S2 driver exactly as the event loop applies it; what is judged here is
+//! whether the state machine's side of that gate (`inflight()`, `collision`) agrees with the
+//! wire-side shadow M-client keeps, after every call.
+//!
+//! The event-loop half ("request channel not consumed while the window is full or a collision
+//! is pending; resumes within one poll round after an ack") plugs in through `s3_half()`.
 use super::{Meta, Prop};
-use crate::common::{Ctx, Stats};
+use crate::common::{panic_site, Ctx, Record, Stats};
+use crate::gen::cwork::{self, Step, View};
+use crate::model::mclient::InClass;
+use crate::sub::s2::{Outcome, Pk, Via};
+use serde_json::Value;
 
-fn run(_ctx: &Ctx) -> Stats {
-    let mut s = Stats::default();
-    s.inconclusive.push("check not built yet".into());
-    s
+pub const ID: &str = "C07";
+
+pub fn oracles(v: &View, stats: &mut Stats) -> Vec<Record> {
+    let mut out = vec![];
+    let reads_state = matches!(
+        v.step,
+        Step::Call { .. } | Step::Failed | Step::Reconnected { .. } | Step::ReplayDone
+    );
+    if !reads_state {
+        return out;
+    }
+
+    if let Step::Call { call, cls, delta, .. } = &v.step {
+        // panics on the request side (allocator arithmetic) belong to this property
+        if let (Outcome::Panic(p), Via::Request | Via::Replay | Via::Ping) = (&call.outcome, call.via) {
+            out.push(
+                v.tag(Record::new(
+                    ID,
+                    "panic",
+                    format!("{} panicked at {}: {}", call.input.show(), p.location, p.message),
+                ))
+                .fact("site", panic_site(p)),
+            );
+            return out;
+        }
+
+        // (1) ids on the wire: non-zero, no larger than the limit
+        if let Outcome::Ok(Some(p)) = &call.outcome {
+            let carries_id = match p {
+                Pk::Publish { qos, .. } => *qos > 0,
+                Pk::Subscribe { .. } | Pk::Unsubscribe { .. } => true,
+                _ => false,
+            };
+            if carries_id {
+                stats.oracle("C07/pkid-in-range");
+                // a retransmission keeps its original id (C02 demands that), so it is bounded
+                // by the configured limit; a new packet by the limit in force
+                let is_retransmission = call.via == Via::Replay;
+                let bound = if is_retransmission { v.limit_cfg } else { v.limit_eff };
+                if p.pkid() == 0 || p.pkid() > bound {
+                    out.push(
+                        v.tag(Record::new(
+                            ID,
+                            "pkid-out-of-range",
+                            format!(
+                                "{} written with packet id {} (limit in force {}, configured {})",
+                                p.show(),
+                                p.pkid(),
+                                v.limit_eff,
+                                v.limit_cfg
+                            ),
+                        ))
+                        .fact("packet", p.kind())
+                        .fact("zero", p.pkid() == 0)
+                        .fact("limit_lowered_by_connack", v.limit_eff < v.limit_cfg),
+                    );
+                }
+            }
+        }
+
+        // (2) no two simultaneously unacknowledged publishes share an id
+        if matches!(&call.outcome, Outcome::Ok(Some(Pk::Publish { qos, .. })) if *qos > 0) {
+            stats.oracle("C07/pkid-unique-among-unacknowledged");
+            if let Some((holder, phase)) = &delta.pkid_conflict {
+                out.push(
+                    v.tag(Record::new(
+                        ID,
+                        "pkid-reused",
+                        format!(
+                            "{} written while publish '{}' still holds that id ({}: unacknowledged until {})",
+                            call.outcome.show(),
+                            holder,
+                            phase.name(),
+                            if phase.name() == "released" { "PUBCOMP" } else { "PUBACK/PUBREC" }
+                        ),
+                    ))
+                    .fact("holder_phase", phase.name()),
+                );
+            }
+        }
+
+        // (3) a parked publish keeps the id it was announced with
+        if delta.parked_pkid_changed {
+            out.push(v.tag(Record::new(
+                ID,
+                "parked-pkid-changed",
+                format!("a parked publish was written under another id than announced: {}", call.show()),
+            )));
+        }
+
+        // (4) an acknowledgement that frees a slot must be accepted
+        if call.via == Via::Read && matches!(cls, InClass::AckFinal(_) | InClass::AckRec(_)) {
+            stats.oracle("C07/solicited-ack-accepted");
+            if !call.outcome.is_ok() {
+                out.push(
+                    v.tag(Record::new(
+                        ID,
+                        "solicited-ack-rejected",
+                        format!("{} answers a publish written on this connection but was rejected: {}", call.input.show(), call.show()),
+                    ))
+                    .fact("packet", call.input.kind()),
+                );
+            }
+        }
+    }
+
+    // (5) window: never more than `limit` written and unacknowledged
+    stats.oracle("C07/window-within-limit");
+    let window = v.model.window();
+    if window > v.limit_eff as usize {
+        out.push(
+            v.tag(Record::new(
+                ID,
+                "window-exceeded",
+                format!("{} publishes are written and unacknowledged, limit in force is {} (after {})", window, v.limit_eff, v.step_show()),
+            ))
+            .fact("limit_lowered_by_connack", v.limit_eff < v.limit_cfg),
+        );
+    }
+
+    // (6) a collision is pending only while its id is genuinely held, so it can be resolved
+    stats.oracle("C07/collision-id-held");
+    if let Some(c) = &v.collision {
+        let id = c.pkid();
+        let model_holds = v.model.holder(id).is_some();
+        let state_holds = match v.after {
+            Some(a) => {
+                a.held.pubs.iter().any(|p| p.pkid() == id)
+                    || a.held.rels.contains(&id)
+                    || v.pending
+                        .iter()
+                        .any(|p| matches!(p, Pk::Publish { .. } | Pk::PubRel { .. }) && p.pkid() == id)
+            }
+            None => true,
+        };
+        if !model_holds || !state_holds {
+            out.push(
+                v.tag(Record::new(
+                    ID,
+                    "collision-id-not-held",
+                    format!(
+                        "collision = {} is pending but no unacknowledged publish holds id {} (wire-side shadow: {}, state/pending: {}) after {}: it can never be resolved",
+                        c.show(),
+                        id,
+                        model_holds,
+                        state_holds,
+                        v.step_show()
+                    ),
+                ))
+                .fact("held_on_wire", model_holds)
+                .fact("held_in_state", state_holds),
+            );
+        }
+    }
+
+    // (7) the two halves of the gate agree with the wire-side shadow. While `pending` is being
+    // replayed the state counts what has been written on this connection so far.
+    if v.connected {
+        stats.oracle("C07/collision-matches-parked");
+        let parked = v.model.parked().map(|l| l.pid.clone());
+        let coll = v.collision.as_ref().map(|p| match p {
+            Pk::Publish { payload, .. } => payload.clone(),
+            _ => String::new(),
+        });
+        if parked != coll {
+            out.push(v.tag(Record::new(
+                ID,
+                "collision-mismatch",
+                format!(
+                    "state.collision holds {:?} but the publish announced as waiting for an ack is {:?} (after {})",
+                    coll,
+                    parked,
+                    v.step_show()
+                ),
+            )));
+        }
+        stats.oracle("C07/inflight-equals-window");
+        let on_conn = v.model.window_on(v.conn);
+        if v.inflight as usize != on_conn {
+            out.push(
+                v.tag(Record::new(
+                    ID,
+                    "inflight-mismatch",
+                    format!(
+                        "inflight() = {} but {} publishes are written on this connection and unacknowledged (after {}): the gate {}",
+                        v.inflight,
+                        on_conn,
+                        v.step_show(),
+                        if (v.inflight as usize) > on_conn {
+                            "stays closed although the window has room"
+                        } else {
+                            "opens although the window is fuller than counted"
+                        }
+                    ),
+                ))
+                .fact("direction", if (v.inflight as usize) > on_conn { "leak" } else { "short" }),
+            );
+        }
+        // resumes as soon as an acknowledgement frees the window / no request while it is full
+        if v.pending.is_empty() {
+            stats.oracle("C07/gate-agrees-with-window");
+            let should_open = window < v.limit_eff as usize && parked.is_none();
+            if v.gate_open != should_open {
+                out.push(v.tag(Record::new(
+                    ID,
+                    "gate-disagrees",
+                    format!(
+                        "request gate is {} but window = {}/{} and parked = {:?} (after {})",
+                        if v.gate_open { "open" } else { "closed" },
+                        window,
+                        v.limit_eff,
+                        parked,
+                        v.step_show()
+                    ),
+                )));
+            }
+        }
+    }
+    out
+}
+
+/// Event-loop half: absent until `src/sub/s3.rs` exists.
+pub fn s3_half(_ctx: &Ctx, _stats: &mut Stats) {}
+
+fn run(ctx: &Ctx) -> Stats {
+    let mut stats = cwork::run_family(ctx, ID, cwork::PROFILE_C07, 15_000, 3_000_000);
+    s3_half(ctx, &mut stats);
+    stats
+}
+
+fn replay(ctx: &Ctx, doc: &Value) -> Stats {
+    cwork::replay_family(ctx, ID, doc)
 }
 
 pub fn prop() -> Prop {
     Prop {
-        id: "C07",
+        id: ID,
         meta: Meta {
             level: "exploration",
-            rule: "not built",
-            assumptions: &[],
-            floors: &[],
+            rule: "S2 half only (state machine; the event-loop half on the real request channel is not built yet). \
+                   A case is one history of 20-160 ops against the real v4 or v5 MqttState with inflight limit from \
+                   {1,2,3,5,10,100,65535} (v5: receive_max negotiated down at CONNACK and changed between connections), \
+                   ack orders FIFO/LIFO/random/skip-one with duplicates, wrong kinds and unsolicited ids, plus 12 (3.1.1) / 22 \
+                   (MQTT 5) directed scenarios and a 65535-publish wrap-around per version. Distinct = hash of (version, limit, manual, \
+                   op-kind sequence incl. packet kinds per batch), counted only if a named corner state was reached.",
+            assumptions: &[
+                "unacknowledged = from first write until PUBACK, or PUBCOMP for QoS 2 (DESIGN.md section 4)",
+                "limit for new packets = limit in force (v5: min(receive_max, configured)); a retransmission keeps its original id and is bounded by the configured limit",
+                "subscribe/unsubscribe ids share the allocator but only publishes are subject to the uniqueness clause, as the statement says",
+                "the S2 driver offers a new request to the state machine only when inflight < limit && collision.is_none() && pending is empty, as EventLoop::select does",
+            ],
+            floors: &[
+                ("pkid-wrapped", 10000),
+                ("collision-parked", 1000),
+                ("collision-released-by-puback", 1000),
+                ("collision-released-by-pubcomp", 10),
+                ("window-full", 20000),
+                ("gate-blocked-request", 700),
+                ("resumed-after-ack", 150),
+                ("ack-freed-full-window", 8000),
+                ("collision-across-clean", 300),
+                ("pkid-wrapped-at-65535", 2),
+                ("C07/pkid-unique-among-unacknowledged", 50000),
+                ("C07/inflight-equals-window", 500000),
+            ],
         },
         run,
-        replay: None,
+        replay: Some(replay),
     }
 }
